@@ -69,6 +69,7 @@ MUTANTS = {
     ],
     "C18": [
         ("patch:own-c18-bool-parsing",),
+        ("patch:own-c18-exome-min-coverage",),
         ("values-kept-as-strings", "aldy/profile.py", "                            self.__dict__[n] = typ(v)", "                            self.__dict__[n] = v"),
         ("precedence-reversed", "aldy/profile.py", '            **dict(prof.get("options", {}), **params),', '            **dict(params, **prof.get("options", {})),'),
         ("options-dropped-on-write", "aldy/profile.py", '                d["options"][k] = v', "                pass"),
